@@ -86,13 +86,41 @@ func (vc *VC) execCall(fr *Frame, st *State, instr ssa.Instruction, c *ssa.CallC
 }
 
 func (vc *VC) callStatic(fr *Frame, st *State, callee *ssa.Function, closure *ssa.MakeClosure, args []string, argVals []ssa.Value, pos token.Pos) []string {
-	full := callee.String()
 	vc.atCall(fr, st, callee, args, pos)
+	idx := ""
 	if callee.Synthetic == "" {
 		// (synthetic wrappers, e.g. the pointer-receiver wrapper of a value method, forward to the real
 		// function, which records the event)
-		vc.event(fr, st, shortFuncName(callee), args, sigTypes(callee.Signature, true)...)
+		name := shortFuncName(callee)
+		if key := fmt.Sprintf("G_arg_%s_%d", sanitizeID(name), resultSlot); vc.eventNames[name] && vc.svSort[key] != "" {
+			idx = vc.get(st, vc.eventCounter(name))
+		}
+		vc.event(fr, st, name, args, sigTypes(callee.Signature, true)...)
 	}
+	res := vc.callStaticInner(fr, st, callee, closure, args, argVals, pos)
+	if idx != "" && len(res) > 0 {
+		// callres: the first result of this call is recorded under the call's index
+		key := fmt.Sprintf("G_arg_%s_%d", sanitizeID(shortFuncName(callee)), resultSlot)
+		r := res[0]
+		if vc.svSort[key] == "(Array Int Int)" {
+			switch vc.sortOf(callee.Signature.Results().At(0).Type()) {
+			case "Slice":
+				r = fmt.Sprintf("(s_arr %s)", r)
+			case "Iface":
+				r = fmt.Sprintf("(if_val %s)", r)
+			case "Bool":
+				r = fmt.Sprintf("(ite %s 1 0)", r)
+			case "Real":
+				return res
+			}
+		}
+		vc.set(st, key, fmt.Sprintf("(store %s %s %s)", vc.get(st, key), idx, r))
+	}
+	return res
+}
+
+func (vc *VC) callStaticInner(fr *Frame, st *State, callee *ssa.Function, closure *ssa.MakeClosure, args []string, argVals []ssa.Value, pos token.Pos) []string {
+	full := callee.String()
 	// 1. built-in models of library functions
 	if res, ok := vc.modelCall(fr, st, callee, args, argVals, pos); ok {
 		return res
@@ -295,7 +323,7 @@ func (vc *VC) execBuiltin(fr *Frame, st *State, b *ssa.Builtin, c *ssa.CallCommo
 		case *types.Basic:
 			fr.env[v] = vc.def("Int", fmt.Sprintf("(slen %s)", a), "len")
 		case *types.Map:
-			n := vc.fresh("Int", "maplen")
+			n := vc.def("Int", vc.mapCard(st, t, a), "maplen")
 			vc.fact(st.pc, fmt.Sprintf("(>= %s 0)", n))
 			fr.env[v] = n
 		case *types.Array:
@@ -709,8 +737,68 @@ func (vc *VC) modInstr(fn *ssa.Function, in ssa.Instruction, out map[string]bool
 			}
 		}
 		out["G_iterpos_*"] = true
-	case *ssa.Select, *ssa.Send:
+	case *ssa.Select:
 		out["G_events"] = true
+		for _, sst := range x.States {
+			out["EV|"+vc.chanEventName(sst.Dir == types.SendOnly, sst.Chan)] = true
+		}
+	case *ssa.Send:
+		out["G_events"] = true
+		out["EV|"+vc.chanEventName(true, x.Chan)] = true
+	}
+	if u, ok := in.(*ssa.UnOp); ok && u.Op == token.ARROW {
+		out["EV|"+vc.chanEventName(false, u.X)] = true
+	}
+}
+
+// mapCard is the number of keys of map m in state st: an uninterpreted cardinality of its domain set (0 for nil).
+func (vc *VC) mapCard(st *State, mt *types.Map, m string) string {
+	ks := vc.sortOf(mt.Key())
+	fn := "mapcard_" + sanitizeID(ks)
+	vc.declareOnceRaw(fn, fmt.Sprintf("(declare-fun %s ((Array %s Bool)) Int)", fn, ks))
+	dom, _ := vc.mapSV(mt)
+	return fmt.Sprintf("(ite (= %s 0) 0 (%s (select %s %s)))", m, fn, vc.get(st, dom), m)
+}
+
+// chanEventName names the ghost event of a channel operation: "recv.T.f" / "send.T.f" when the channel is
+// loaded from field f of struct type T, plain "recv" / "send" otherwise.
+func (vc *VC) chanEventName(send bool, ch ssa.Value) string {
+	op := "recv"
+	if send {
+		op = "send"
+	}
+	if u, ok := ch.(*ssa.UnOp); ok && u.Op == token.MUL {
+		if structT, field, _, ok := vc.fieldOfAddr(u.X); ok {
+			if n := namedOf(structT); n != nil {
+				return op + "." + n.Obj().Name() + "." + structT.Underlying().(*types.Struct).Field(field).Name()
+			}
+		}
+	}
+	return op
+}
+
+// condEvent records a call event only when cond holds (used for the cases of a select).
+func (vc *VC) condEvent(fr *Frame, st *State, cond string, name string, args []string) {
+	if vc.eventNames == nil || !vc.eventNames[name] {
+		return
+	}
+	id := sanitizeID(name)
+	before := map[string]string{}
+	for k := range vc.svSort {
+		if k == "G_calls_"+id || strings.HasPrefix(k, "G_arg_"+id+"_") || strings.HasPrefix(k, "G_sum_"+id+"_") {
+			before[k] = vc.get(st, k)
+		}
+	}
+	vc.event(fr, st, name, args)
+	keys := make([]string, 0, len(before))
+	for k := range before {
+		keys = append(keys, k)
+	}
+	sort.Strings(keys)
+	for _, k := range keys {
+		if after := vc.get(st, k); after != before[k] {
+			vc.set(st, k, fmt.Sprintf("(ite %s %s %s)", cond, after, before[k]))
+		}
 	}
 }
 
